@@ -15,13 +15,13 @@ claim("C04",
 
 claim("C06",
   "guarded reachability over SSA + who-may-call / who-may-write closed lists + use-set (taint-style) of the client map",
-  "All clauses of the property are structural and are decided: the gate dominates routing on the same message and channel and refusal sends an error and closes; firewall's nil only across authenticated-or-service-0 regardless of type; closed, individually guarded list of SetAuthenticated callers and state-key writers; the client-supplied map is only looked up for user/token and never iterated, stored, merged or returned; the per-connection map is a fresh DefaultCap().",
+  "All clauses of the property are structural and are decided: the gate dominates routing on the same message and channel and refusal sends an error and closes; firewall's nil only across authenticated-or-service-0 regardless of type; closed, individually guarded list of SetAuthenticated callers and state-key writers; the client-supplied map is only looked up for user/token and never iterated, stored, merged or returned; the per-connection map is a fresh DefaultCap(). The authentication state kept in a channel's capability map is read and written with a mutex of the channel held (D25, fixed).",
   "Authenticator implementations and TLS are trusted; locks/maps identified by type+field.",
   "DESIGN.md §3 C06")
 
 claim("C10",
   "ownership (who touches the stream / who calls raw Read-Write) + must-pass-once path rules over SSA + lockset",
-  "Decides that Message.Write hands its writer to exactly one WriteN call with the bytes of a private buffer filled header-then-payload, refuses size mismatch, that the endpoint's stream is only used by Send→Message.Write, process→Message.Read, Close and String, that WriteN hands the whole remaining buffer to each Write, that process dispatches synchronously between reads (directly or through a receive helper of its own), that a handler slot is found and filled in one critical section, and that enqueueing is non-blocking, under the handler mutex, only on the matching filter and offered to every handler.",
+  "Decides that Message.Write hands its writer to exactly one WriteN call with the bytes of a private buffer filled header-then-payload, refuses size mismatch, that the endpoint's stream is only used by Send→Message.Write, process→Message.Read, Close and String, that WriteN hands the whole remaining buffer to each Write, that process dispatches synchronously between reads (directly or through a receive helper of its own), that a handler slot is found and filled in one critical section, and that enqueueing is non-blocking, under the handler mutex, only on the matching filter and offered to every handler. The goroutine draining an AddHandler queue does not select between the queue and another channel (accepted messages are not abandoned).",
   "Atomicity of one Write on each transport and per-sender ordering under all schedules are not decided.",
   "DESIGN.md §3 C10")
 
@@ -70,7 +70,7 @@ claim("C17",
 
 claim("C07",
   "wire-integer taint analysis over SSA with guarded-reachability sanitisers + recursive minimum-consumption summaries + call-graph panic reachability",
-  "Decides the clause visible in the code's shape: no allocation size or loop bound comes from an integer read off the wire without a constant (or existing-capacity) upper bound, and none that went through a signed type reaches a panicking sink without a lower bound; loops bounded by a wire count must consume at least one byte per iteration (callee summaries computed from ReadN constant lengths). Plus: no explicit panic reachable from a decoder, checked arities of parallel slices in the signature node builders, unchecked assertions confined to confirmed sites. Also: a wire integer indexes or slices only behind a comparison with the length of what is indexed (C07.wire-index); no package-level map is written at run time without a lock and no shared map under a read lock only (C07.shared-state). Zero-count rules are exercised on every run by positive and negative examples overlaid on the repository (DESIGN §8a).",
+  "Decides the clause visible in the code's shape: no allocation size or loop bound comes from an integer read off the wire without a constant (or existing-capacity) upper bound, and none that went through a signed type reaches a panicking sink without a lower bound; loops bounded by a wire count must consume at least one byte per iteration (callee summaries computed from ReadN constant lengths). Plus: no explicit panic reachable from a decoder, checked arities of parallel slices in the signature node builders, unchecked assertions confined to confirmed sites. Also: a wire integer indexes or slices only behind a comparison with the length of what is indexed (C07.wire-index); no package-level map is written at run time without a lock and no shared map under a read lock only (C07.shared-state). Zero-count rules are exercised on every run by positive and negative examples overlaid on the repository (DESIGN §8a). The IDL parser's type references refuse recursion (C18.recursion, shared; D24, fixed).",
   "Absence of implicit panics and hangs in general, and time/memory proportional to input, are not decided (need execution). The rule is interprocedural for allocation parameters and also decides that no two alternatives of an ordered choice of the signature / IDL grammars share a prefix with a non-terminal (exponential backtracking: D20, fixed). D8 (generated decoders allocated from the wire count, 16 sites) was first a known finding and is fixed in /repo (6a14ca9).",
   "DESIGN.md §3 C07")
 
@@ -95,7 +95,7 @@ claim("C02",
 
 claim("C03",
   "table agreement across four independently maintained codec descriptions + wire-shape comparison of every reader/writer pair",
-  "Decides that type/basic primitives, signature constructors (letter, IDL, reader width, Go type, template primitives), the reflection encoder/decoder kind switches, the Encode/Decode type switches and the documentation agree row by row; that slice/map are a 32-bit count plus that many elements (key before value) on every side with fresh storage per decoded element; and that all checked-in readX/writeX pairs have identical field-by-field wire shapes.",
+  "Decides that type/basic primitives, signature constructors (letter, IDL, reader width, Go type, template primitives), the reflection encoder/decoder kind switches, the Encode/Decode type switches and the documentation agree row by row; that slice/map are a 32-bit count plus that many elements (key before value) on every side with fresh storage per decoded element; and that all checked-in readX/writeX pairs have identical field-by-field wire shapes. Every generated writer writes the fields of its struct in declaration order, the order the reflection codec walks (C03.pairs field-order).",
   "The generator is analysed under C05 (emitted operations), here only its scalar rows and its checked-in output; value equality is not decided.",
   "DESIGN.md §3 C03")
 
@@ -107,7 +107,7 @@ claim("C09",
 
 claim("C18",
   "table agreement between IDL printers and IDL grammar (AST constants) + component-registration and assertion checks over SSA",
-  "Decides that every IDL type name printed is parsed back by the same constructor, that composite and line-level tokens printed are atoms of the parser, that the uid is read back as printed into a uint32, that composite types register all their components, and that IDL node builders assert unchecked only to terminals. The IDL parser's entry points use no package-level variable that changes after initialisation (C18.stateless); no address of a loop variable shared by all iterations is kept beyond its iteration (C18.loop-variables).",
+  "Decides that every IDL type name printed is parsed back by the same constructor, that composite and line-level tokens printed are atoms of the parser, that the uid is read back as printed into a uint32, that composite types register all their components, and that IDL node builders assert unchecked only to terminals. The IDL parser's entry points use no package-level variable that changes after initialisation (C18.stateless); no address of a loop variable shared by all iterations is kept beyond its iteration (C18.loop-variables). A type reference hands a question on to the type it designates only while marked as being visited and refuses to resolve while marked (C18.recursion; D24, fixed).",
   "Identity on all meta-objects and parser totality on arbitrary text are not decided. Declared names (struct, field, action) are printed as stored. D14 (void printed as 'nothing') was repaired in /repo.",
   "DESIGN.md §3 C18")
 
@@ -124,6 +124,6 @@ for pid in ["C01","C02","C03","C04","C06","C07","C08","C09","C10","C11","C12","C
 
 claim("C05",
   "emitted-operation extraction over the code generator's syntax tree (jen call chains, string fragments, Type.Marshal/Unmarshal calls, loops over Members/Params) and dual comparison of the write and read sides + per-iteration completeness on SSA",
-  "Decides, on the generator itself (meta/signature, meta/stub, meta/idl), the structural clauses without which the generated halves cannot be inverses for any IDL: every scalar constructor names the Write and Read primitive of its own letter; for list, map, tuple, struct and enum the operations emitted by Marshal are the dual of those emitted by Unmarshal (same primitives, same members in the same order, same Go expression on both sides, generated loops in the same places behind a 32-bit count, struct read/write functions declared under the names the call sites use and covering every member); every emitter that encodes or decodes a parameter list handles each declared parameter exactly once per iteration with the parameter's own type (stub method, signal and property bodies, proxy bodies); the stub encodes the result after decoding the parameters. The reflection codec the generated proxy uses is held to the composite/kind rules of C03 (fresh storage per decoded element, every kind through its own primitive).",
+  "Decides, on the generator itself (meta/signature, meta/stub, meta/idl), the structural clauses without which the generated halves cannot be inverses for any IDL: every scalar constructor names the Write and Read primitive of its own letter; for list, map, tuple, struct and enum the operations emitted by Marshal are the dual of those emitted by Unmarshal (same primitives, same members in the same order, same Go expression on both sides, generated loops in the same places behind a 32-bit count, struct read/write functions declared under the names the call sites use and covering every member); every emitter that encodes or decodes a parameter list handles each declared parameter exactly once per iteration with the parameter's own type (stub method, signal and property bodies, proxy bodies); the stub encodes the result after decoding the parameters. The reflection codec the generated proxy uses is held to the composite/kind rules of C03 (fresh storage per decoded element, every kind through its own primitive). Inside an emitted loop the element handed to the member's emitter is not named through the container parameter and the emitted index (nested containers re-declare it).",
   "NOT decided: that the generated text compiles for every IDL (identifier hygiene, imports, name collisions, well-formedness of the string fragments), that a signal's tuple type on the subscriber side is the tuple of the emitter's parameters, equality of values end to end. The generator is never run; only its source is analysed, so a check of the generated output for an unseen IDL is out of reach of this technique.",
   "DESIGN.md §3 C05")
